@@ -20,10 +20,16 @@ TRUSTED = [
     "from the real run; SHA-512 and the SRP arithmetic are recomputed in Lean)",
     "ASSUMED, not proved (DESIGN 2.2): SRP-6a is a PAKE for A != 0 mod N, i.e. only a party that knows the setup "
     "code can produce the expected proof M for a non-degenerate A; SHA-512/HKDF one-wayness, ChaCha20-Poly1305 and "
-    "Ed25519 unforgeability.  These enter C01_symbolic only as the shape of a free term algebra "
-    "(lean/Proofs/PairSetupSym.lean: attacker alone, no honest controller in the picture, a separate symbolic "
-    "accessory that is not tied to the code by the differential run); the concrete theorems are the gate over all "
-    "histories (every O1/O2/O3 needs a good M3 in the current exchange), the algebra of A = 0 mod N and its rejection",
+    "Ed25519 unforgeability.  They enter as ONE explicit hypothesis of C01_symbolic_exec (NoForge: for A != 0 mod N no "
+    "term computable without the code / honest secrets / session secrets denotes the expected proof; attacker = "
+    "Dolev-Yao, accessory = the executable PairSetup.step that this run ties to pyhap) and as the shape of the free "
+    "term algebra in C01_symbolic / C01_mitm_pairing_origin (symbolic accessory and honest controller; only the "
+    "expected-proof format is tied to the executable model, C01_symbolic_format).  The concrete theorems are the gate "
+    "over all histories in terms of the setup code (C01_gate_code: every O1 answers the closed-form SRP-6a proof for "
+    "the code configured at the M1, every O2/O3 an M5 sealed under the key of that demonstration), the algebra of "
+    "A = 0 mod N and its rejection",
+    "the specification predicates of the theorems (goodM3, ghost exchange / demonstrating A) are reported by the Lean "
+    "driver per request and compared with harness/ref/srp_client.server_expected (reference SERVER formulas)",
     "harness/ref/srp_client.py + pairsetup_client.py + tlv8.py: independent reference (oracle, attacker computations)",
 ]
 
